@@ -111,7 +111,7 @@ def check(ctx, replay=None):
         cov["evaluations"] += s["probes"]
         cov["distinct_nontrivial"] += s["distinct_nontrivial"]
         cov["traces_validated_against_impl"] += s["children"]
-        cov.setdefault("kernel_replays", []).append({k: s[k] for k in ("scope", "cases", "children", "probes", "fatal_probes", "fatal_probes_by_class", "skipped_children", "inconclusive_children", "failed_loads_not_judged", "children_with_a_prior_policy", "children_with_a_divergent_thread")})
+        cov.setdefault("kernel_replays", []).append({k: s[k] for k in ("scope", "cases", "children", "probes", "fatal_probes", "fatal_probes_by_class", "skipped_children", "inconclusive_children", "failed_loads_not_judged", "children_with_a_prior_policy", "children_with_a_divergent_thread", "children_probing_from_another_thread_after_thread_sync", "children_whose_seccomp_call_is_answered_ENOSYS")})
         if s["skipped_children"] > s["children"] // 4:
             raise vlib.Machinery("%d of %d children could not be run" % (s["skipped_children"], s["children"]))
         for x in s["samples"] or []:
